@@ -186,3 +186,91 @@ Proof.
         (conj ex_leading_zero (conj ex_empty_string ex_empty_molecule))))))))).
 Qed.
 Print Assumptions C10_example_rejections.
+
+(* ---- the same, on strings, without the lexer (Proofs/GrammarStrings.v) ----
+   A string is accepted iff it is the spelling (`print_tokens`: the concatenation of the
+   terminals) of a sentence of the grammar that satisfies the three semantic conditions. *)
+Require LexPrint GrammarStrings.
+
+Theorem C10_sentence_lexable : forall ts a, Sentence ts a -> LexPrint.lexable ts = true.
+Proof. exact GrammarStrings.Sentence_lexable. Qed.
+Print Assumptions C10_sentence_lexable.
+
+Theorem C10_sentence_lex : forall ts a, Sentence ts a -> lex_text (print_tokens ts) = Some ts.
+Proof. exact GrammarStrings.Sentence_lex. Qed.
+Print Assumptions C10_sentence_lex.
+
+Theorem C10_ref_parse_iff_sentence_string : forall s g,
+  ref_parse s = inr g <->
+  exists ts a, s = print_tokens ts /\ Sentence ts a /\ sem a = inr g.
+Proof. exact GrammarStrings.ref_parse_iff_sentence_string. Qed.
+Print Assumptions C10_ref_parse_iff_sentence_string.
+
+Theorem C10_accepted_iff : forall s,
+  (exists g, ref_parse s = inr g) <->
+  exists ts a, s = print_tokens ts /\ Sentence ts a /\
+               NoSelfLoop a /\ NoDupAttr a /\ IndicesExist a.
+Proof. exact GrammarStrings.accepted_iff. Qed.
+Print Assumptions C10_accepted_iff.
+
+Theorem C10_ref_parse_iff_sentence_string_graph : forall s g,
+  ref_parse s = inr g <->
+  exists ts a, s = print_tokens ts /\ Sentence ts a /\
+               NoSelfLoop a /\ NoDupAttr a /\ IndicesExist a /\ g = sem_mol a.
+Proof. exact GrammarStrings.ref_parse_iff_sentence_string_graph. Qed.
+Print Assumptions C10_ref_parse_iff_sentence_string_graph.
+
+(* the published grammar is unambiguous as a grammar of strings *)
+Theorem C10_spelling_unambiguous : forall ts a ts' a',
+  Sentence ts a -> Sentence ts' a' -> print_tokens ts = print_tokens ts' -> ts = ts' /\ a = a'.
+Proof. exact GrammarStrings.spelling_unambiguous. Qed.
+Print Assumptions C10_spelling_unambiguous.
+
+Theorem C10_not_sentence_string_rejected : forall s,
+  (forall ts a, s = print_tokens ts -> ~ Sentence ts a) ->
+  ref_parse s = inl ELex \/ ref_parse s = inl ESyntax.
+Proof. exact GrammarStrings.not_sentence_string_rejected. Qed.
+Print Assumptions C10_not_sentence_string_rejected.
+
+(* the number rules, character by character: no sign, no leading zero *)
+Theorem C10_sentence_numerals_spelling : forall ts a, Sentence ts a ->
+  forall z, In (TNum z) ts ->
+  exists c d, print_token (TNum z) = c :: d /\ is_digit c = true /\ c <> "0"%char /\
+              forallb is_digit d = true.
+Proof. exact GrammarStrings.Sentence_numerals_spelling. Qed.
+Print Assumptions C10_sentence_numerals_spelling.
+
+Theorem C10_accepted_numerals_spelling : forall s g, ref_parse s = inr g ->
+  exists ts, s = print_tokens ts /\
+    forall z, In (TNum z) ts ->
+    exists c d, print_token (TNum z) = c :: d /\ is_digit c = true /\ c <> "0"%char /\
+                forallb is_digit d = true.
+Proof. exact GrammarStrings.accepted_numerals_spelling. Qed.
+Print Assumptions C10_accepted_numerals_spelling.
+
+Theorem C10_sentence_symbols_spelled : forall ts a, Sentence ts a ->
+  forall z, In (TSym z) ts -> exists sp, symbol_of z = Some sp /\ print_token (TSym z) = sp /\ sp <> [].
+Proof. exact GrammarStrings.Sentence_symbols_spelled. Qed.
+Print Assumptions C10_sentence_symbols_spelled.
+
+(* non-vacuity: a derivation for ethanol with a mass block, and the theorems applied to it *)
+Theorem C10_example_sentence_string :
+  Sentence LexPrint.ex_ethanol_tokens GrammarStrings.ex_ethanol_ast /\
+  print_tokens LexPrint.ex_ethanol_tokens =
+    t "C2H6O/(1-7)(2-7)(3-7)(4-8)(5-8)(6-9)(7-8)(8-9)/(6:mass=2)(7:mass=13,rad=2)" /\
+  lex_text (print_tokens LexPrint.ex_ethanol_tokens) = Some LexPrint.ex_ethanol_tokens /\
+  ref_parse (t "C2H6O/(1-7)(2-7)(3-7)(4-8)(5-8)(6-9)(7-8)(8-9)/(6:mass=2)(7:mass=13,rad=2)")
+    = inr (sem_mol GrammarStrings.ex_ethanol_ast).
+Proof.
+  exact (conj GrammarStrings.ex_ethanol_sentence (conj GrammarStrings.ex_ethanol_string
+        (conj GrammarStrings.ex_ethanol_sentence_lex GrammarStrings.ex_ethanol_accepted_by_grammar))).
+Qed.
+Print Assumptions C10_example_sentence_string.
+
+Theorem C10_example_non_sentences :
+  lex_text (print_tokens [TSym 6; TMass]) = None /\
+  lex_text (print_tokens [TNum 1; TNum 2]) = Some [TNum 12] /\
+  (lex_text (print_tokens [TSym 6; TNum 1; TSym 1; TNum 4; TSlash]) = Some [TSym 6; TNum 1; TSym 1; TNum 4; TSlash]
+   /\ forall a, ~ Sentence [TSym 6; TNum 1; TSym 1; TNum 4; TSlash] a).
+Proof. exact GrammarStrings.ex_non_sentences. Qed.
+Print Assumptions C10_example_non_sentences.
